@@ -73,7 +73,9 @@ let ch_det hex lim obs =
       let o = obs.[i] in
       if m <> '?' && m <> o then
         mismatch "det" (Printf.sprintf "node=%d det=%s source-translation=%c obs=%c input=%s limit=%s" i (string_of_bytes (obs_of (nat_of_int i) |> fst)) m o hex lim)
-    end) (src_verdicts raw l);
+    end) (if String.length hex <= 256 || Hashtbl.hash hex mod 8 = 0 then src_verdicts raw l else []);
+  (* (headers above 128 bytes: one in eight, chosen by a hash of the input - the translated functions compute len(raw),
+     O(n) on lists, at every index expression) *)
   if String.length obs <> List.length vs then
     mismatch "det" (Printf.sprintf "node-count model=%d obs=%d" (List.length vs) (String.length obs))
 
